@@ -314,15 +314,18 @@ func (vc *VC) bytesEqual(st *State, a, b Val) string {
 	return r
 }
 
-// bytesCompare: -1/0/+1 with the lexicographic definition kept abstract except for equality.
+// bytesCompare: the three-way comparison is an uninterpreted function cmp3 of the two byte windows (array, offset, length),
+// with the range -1..1 and "0 iff equal" known; specs refer to the same function (spec builtin cmp3).
 func (vc *VC) bytesCompare(st *State, a, b Val) string {
-	eq := vc.bytesEqual(st, a, b)
-	r := vc.fresh("bcmp", "Int")
-	vc.define(And(Le("(- 1)", r), Le(r, "1"), Eq(Eq(r, "0"), eq)))
-	vc.declareFun("bytesLess", []string{"(Array Int Int)", "Int", "Int", "(Array Int Int)", "Int", "Int"}, "Bool")
 	h := vc.byteHeapGet(st)
-	vc.define(Eq(Eq(r, "(- 1)"), app("bytesLess", Sel(h, a.Reg), a.Off, a.Len, Sel(h, b.Reg), b.Off, b.Len)))
-	return r
+	return vc.cmp3(Sel(h, a.Reg), a.Off, a.Len, Sel(h, b.Reg), b.Off, b.Len)
+}
+
+func (vc *VC) cmp3(A, ao, an, B, bo, bn string) string {
+	vc.declareFun("cmp3", []string{"(Array Int Int)", "Int", "Int", "(Array Int Int)", "Int", "Int"}, "Int")
+	vc.axiom("cmp3_range", "(forall ((A (Array Int Int)) (ao Int) (an Int) (B (Array Int Int)) (bo Int) (bn Int)) (! (and (<= (- 1) (cmp3 A ao an B bo bn)) (<= (cmp3 A ao an B bo bn) 1)) :pattern ((cmp3 A ao an B bo bn))))")
+	vc.axiom("cmp3_anti", "(forall ((A (Array Int Int)) (ao Int) (an Int) (B (Array Int Int)) (bo Int) (bn Int)) (! (= (cmp3 B bo bn A ao an) (- 0 (cmp3 A ao an B bo bn))) :pattern ((cmp3 A ao an B bo bn))))")
+	return app("cmp3", A, ao, an, B, bo, bn)
 }
 
 // sortSearch models sort.Search(n, pred): the predicate closure is evaluated symbolically.
